@@ -665,6 +665,8 @@ class Gen:
                             r.attrs.append((f.name, ('lit', t.choice(['user', 'team', 'noauth', 'app']))))
                         elif f.name == 'host':
                             r.attrs.append((f.name, ('lit', t.choice(['api', 'content', 'notify']))))
+                        elif inner.name == 'Timestamp':
+                            r.attrs.append((f.name, ('lit', self.gen_value(inner).strftime(inner.args['format']))))
                         else:
                             r.attrs.append((f.name, ('lit', self.gen_value(inner))))
                     elif inner.kind == 'ref':
@@ -1112,6 +1114,13 @@ class Gen:
         if t.chance(30):
             fields.append(Field(name='scope', type=T('nullable', inner=prim('String')), default=None,
                                 doc=None, anns=[]))
+        if getattr(self.cfg, 'rich_route_attrs', False):
+            # route attributes of the remaining primitive kinds (a backend that lists attributes formats them)
+            if t.chance(35):
+                fields.append(Field(name='since', type=T('nullable', inner=prim('Timestamp', format=t.choice(TS_FORMATS))),
+                                    default=None, doc=None, anns=[]))
+            if t.chance(25):
+                fields.append(Field(name='ratio', type=prim('Float64'), default=('lit', 0.5), doc=None, anns=[]))
         unions = [d for d in self.m.namespaces[first_ns].defs
                   if isinstance(d, Union) and any(g.type is None for g in d.tags) and not d.parent]
         if unions and t.chance(40):
